@@ -209,14 +209,19 @@ SortOp ==
 SetFieldOp ==
   /\ Building /\ "setfield" \in OpSet /\ HasAux /\ Valid(cur) /\ Valid(aux)
   /\ aux.c = "Record" /\ aux.tuple = 0 /\ LLen(cur) = LLen(aux)
-  /\ \E key \in {"x", "z"} :
-       LET recs == ToListS(aux)  what == ToListS(cur)
-           upd(r, w) == IF \E j \in 1..Len(r.ks) : r.ks[j] = key
-                        THEN VRec(r.ks, [j \in 1..Len(r.ks) |-> IF r.ks[j] = key THEN w ELSE r.vs[j]])
-                        ELSE VRec(r.ks \o <<key>>, r.vs \o <<w>>)
-       IN last' = [act |-> "setfield", args |-> [key |-> key], from |-> cur, aux |-> aux,
-                   fromty |-> TypeStr(TypeOf(cur)), auxty |-> TypeStr(TypeOf(aux)), len |-> LLen(cur),
-                   exp |-> [ok |-> 1, v |-> VList([k \in 1..Len(recs) |-> upd(recs[k], what[k])])]]
+  /\ LET recs == ToListS(aux)  what == ToListS(cur)
+         upd(r, w, key) == IF \E j \in 1..Len(r.ks) : r.ks[j] = key
+                           THEN VRec(r.ks, [j \in 1..Len(r.ks) |-> IF r.ks[j] = key THEN w ELSE r.vs[j]])
+                           ELSE VRec(r.ks \o <<key>>, r.vs \o <<w>>)
+         \* the positional form inserts the new field AT position `where` (appends beyond the end), named str(where)
+         InsertAt(q, p, e) == IF p >= Len(q) THEN q \o <<e>> ELSE SubSeq(q, 1, p) \o <<e>> \o SubSeq(q, p + 1, Len(q))
+         ins(r, w, p) == VRec(InsertAt(r.ks, p, ToString(p)), InsertAt(r.vs, p, w))
+         emit(args, vals) ==
+            last' = [act |-> "setfield", args |-> args, from |-> cur, aux |-> aux,
+                     fromty |-> TypeStr(TypeOf(cur)), auxty |-> TypeStr(TypeOf(aux)), len |-> LLen(cur),
+                     exp |-> [ok |-> 1, v |-> VList(vals)]]
+     IN \/ \E key \in {"x", "z"} : emit([key |-> key], [k \in 1..Len(recs) |-> upd(recs[k], what[k], key)])
+        \/ \E p \in 0..3 : emit([where |-> p], [k \in 1..Len(recs) |-> ins(recs[k], what[k], p)])
   /\ cur' = Sink /\ aux' = NoLayout /\ phase' = "done"
 
 Operate == SetFieldOp \/ SortOp \/ ConcatOp \/ SameValueOp \/ ReduceOp \/ Validity \/ ToListOp \/ SliceOp \/ NumOp \/ LocalIndexOp \/ FlattenOp \/ PadOp \/ CombOp
